@@ -29,6 +29,12 @@ def gen(rng, tier, index):
         cfg["in_prefix"] = rng.choice(["", "gw-out"])
         cfg["out_prefix"] = rng.choice(["", "gw-in"])
     ops = netgen.make_ops(rng, cfg["version"], rng.randint(10, 60 if tier == "thorough" else 45), WEIGHTS, nodes=(1, 4), scenario=0.15)
+    if cfg["flavour"] in ("serial", "tcp") and rng.random() < 0.25:
+        # several lines per chunk and a pre-emptive reader/pump schedule: lines may be framed and
+        # queued while the pump is in the middle of a job
+        cfg["sched"] = {"policy": "rw", "seed": rng.getrandbits(32), "p": rng.choice([0.01, 0.04, 0.15])}
+        cfg["max_steps"] = 1_500_000
+        ops = netgen.chunkify(rng, ops, max_lines=6, p_join=0.8)
     return {"cfg": cfg, "ops": ops}
 
 
